@@ -9,11 +9,14 @@ import (
 	"encoding/json"
 	"fmt"
 	"net"
+	"io"
 	"os"
+	"sync"
 	"testing"
 	"time"
 
 	"github.com/refraction-networking/conjure/pkg/registrars/dns-registrar/dns"
+	"github.com/refraction-networking/conjure/pkg/registrars/dns-registrar/queuepacketconn"
 )
 
 type vcase struct {
@@ -21,6 +24,7 @@ type vcase struct {
 	Data   string   `json:"data"`
 	N      int      `json:"n"`
 	Domain []string `json:"domain"`
+	Msgs   []string `json:"msgs"`
 }
 type vres struct {
 	Ok     bool     `json:"ok"`
@@ -30,6 +34,131 @@ type vres struct {
 	Err    string   `json:"err"`
 	Chunks []string `json:"chunks"`
 	Panic  string   `json:"panic"`
+	Msgs   []string `json:"msgs"`
+	Clean  bool     `json:"clean"` // recvLoop returned nil
+}
+
+// recording reader: the stream that crossed the connection
+type recReader struct {
+	net.Conn
+	mu  sync.Mutex
+	got []byte
+}
+
+func (c *recReader) Read(b []byte) (int, error) {
+	n, err := c.Conn.Read(b)
+	c.mu.Lock()
+	c.got = append(c.got, b[:n]...)
+	c.mu.Unlock()
+	return n, err
+}
+
+func newDoT() *TLSPacketConn {
+	return &TLSPacketConn{QueuePacketConn: queuepacketconn.NewQueuePacketConn(queuepacketconn.DummyAddr{}, 0)}
+}
+
+// drain reads the messages recvLoop queued: n of them if n >= 0, otherwise until nothing arrives for 300 ms
+func drain(c *TLSPacketConn, n int) []string {
+	out := []string{}
+	for n < 0 || len(out) < n {
+		type pkt struct{ b []byte }
+		ch := make(chan pkt, 1)
+		go func() {
+			buf := make([]byte, 70000)
+			k, _, err := c.ReadFrom(buf)
+			if err == nil {
+				ch <- pkt{buf[:k]}
+			}
+		}()
+		wait := 300 * time.Millisecond
+		if n >= 0 {
+			wait = 3 * time.Second
+		}
+		select {
+		case p := <-ch:
+			out = append(out, hex.EncodeToString(p.b))
+		case <-time.After(wait):
+			return out
+		}
+	}
+	return out
+}
+
+func dotRoundTrip(c vcase, r *vres) {
+	a, b := net.Pipe()
+	sender, recvr := newDoT(), newDoT()
+	rec := &recReader{Conn: b}
+	recvDone := make(chan error, 1)
+	go func() { recvDone <- recvr.recvLoop(rec) }()
+	sendPanic := make(chan string, 1)
+	go func() {
+		defer func() {
+			if p := recover(); p != nil {
+				sendPanic <- fmt.Sprint(p)
+			}
+		}()
+		_ = sender.sendLoop(a)
+	}()
+	expect := 0
+	oversize := false
+	for _, m := range c.Msgs {
+		d, _ := hex.DecodeString(m)
+		if len(d) > 65535 {
+			oversize = true
+		}
+		if !oversize {
+			expect++
+		}
+		_, _ = sender.WriteTo(d, queuepacketconn.DummyAddr{})
+	}
+	r.Msgs = drain(recvr, expect)
+	if oversize {
+		select {
+		case p := <-sendPanic:
+			r.Panic = p
+		case <-time.After(2 * time.Second):
+		}
+	}
+	a.Close()
+	select {
+	case err := <-recvDone:
+		r.Clean = err == nil
+		if err != nil {
+			r.Err = err.Error()
+		}
+	case <-time.After(2 * time.Second):
+		r.Err = "recvLoop did not return"
+	}
+	rec.mu.Lock()
+	r.Out = hex.EncodeToString(rec.got)
+	rec.mu.Unlock()
+	r.Ok = true
+}
+
+func dotRecv(c vcase, r *vres) {
+	d, _ := hex.DecodeString(c.Data)
+	a, b := net.Pipe()
+	recvr := newDoT()
+	recvDone := make(chan error, 1)
+	go func() { recvDone <- recvr.recvLoop(b) }()
+	go func() {
+		_, _ = a.Write(d)
+		a.Close()
+	}()
+	select {
+	case err := <-recvDone:
+		r.Clean = err == nil
+		if err != nil {
+			r.Err = err.Error()
+			if err == io.ErrUnexpectedEOF {
+				r.Err = "unexpected EOF"
+			}
+		}
+	case <-time.After(3 * time.Second):
+		r.Err = "recvLoop did not return"
+	}
+	r.Msgs = drain(recvr, -1)
+	r.Ok = true
 }
 
 // captureConn records what send writes to the transport.
@@ -72,6 +201,10 @@ func runCase(c vcase) (r vres) {
 		n, err := base32Encoding.Decode(dec, up)
 		r.Ok2 = err == nil
 		r.Out2 = hex.EncodeToString(dec[:n])
+	case "dot_rt": // TLSPacketConn.sendLoop -> net.Pipe -> TLSPacketConn.recvLoop
+		dotRoundTrip(c, &r)
+	case "dot_recv": // recvLoop on an arbitrary finite stream
+		dotRecv(c, &r)
 	case "send": // the real send() on a capturing transport
 		var dom dns.Name
 		for _, l := range c.Domain {
@@ -104,9 +237,19 @@ func TestVerifC15Requester(t *testing.T) {
 		t.Fatal(err)
 	}
 	res := make([]vres, len(cases))
+	var wg sync.WaitGroup
 	for i, c := range cases {
-		res[i] = runCase(c)
+		if c.Op != "dot_rt" && c.Op != "dot_recv" {
+			res[i] = runCase(c)
+			continue
+		}
+		wg.Add(1)
+		go func(i int, c vcase) {
+			defer wg.Done()
+			res[i] = runCase(c)
+		}(i, c)
 	}
+	wg.Wait()
 	out, _ := json.Marshal(res)
 	if err := os.WriteFile(os.Getenv("VERIF_OUT"), out, 0o644); err != nil {
 		t.Fatal(err)
